@@ -294,6 +294,8 @@ func runC09(c *Ctx) {
 		c.Out.Tag(cid, fmt.Sprintf("nontrivial=%d", b2i(len(foreignKeys) > 0)))
 		c.Out.Count(fmt.Sprintf("foreign.%d", len(foreignKeys)))
 		c.Out.Count(fmt.Sprintf("dirty.%d", len(dirty)))
+		w.Eng.Exec("DELETE FROM undo_log")
+		w.Eng.DropTable(sc.Table)
 	}
 }
 
